@@ -118,7 +118,7 @@ def generate(run_seed, prop, tier="quick"):
                                                          explicit_h=rng.random() < 0.3,
                                                          components=rng.choice([1, 1, 1, 2, 3])) for _ in range(rng.choice([1, 2]))]
         if rng.random() < 0.35:
-            scenario["resolver_strings"] = [rng.choice(ION_STRINGS + [w[0] for w in WRITTEN_H_STRINGS] + [f[0] for f in FORMULA_STRINGS])]
+            scenario["resolver_strings"] = [rng.choice(ION_STRINGS + [w[0] for w in WRITTEN_H_STRINGS] + [f[0] for f in FORMULA_STRINGS] + SQUASH_STRINGS)]
         if rng.random() < 0.02:
             scenario["resolver_strings"] = scenario.get("resolver_strings", []) + [rng.choice(BIG_STRINGS)]
     return scenario
@@ -854,6 +854,18 @@ FORMULA_STRINGS = [
 ]
 
 
+# shared atoms (squash operator) without written-out hydrogens: the rebuilt hydrogens of a shared atom carry its
+# membership, name and weight like any other hydrogen
+SQUASH_STRINGS = [
+    "{[#A][#B]}.{#A=OC[!],#B=[!]CC}",
+    "{[#A][#B]}.{#A=O[C;0.5][!],#B=[!]CC}",
+    "{[#SC3]1[#TC5][#TC5]1}.{#SC3=Cc(c[!])c[!],#TC5=[!]ccc[!]}",
+    "{[#A][#B][#A]}.{#A=[C;2.0][!]N,#B=[!]C[C;0.25][!]}",
+    "{[#A]|3}.{#A=[!]CC([C;0.5])C[!]}",
+    "{[#A][#B]}.{#A=[C;0.5][!]O,#B=[!][C;0.5]C}",
+]
+
+
 def resolve_strings(strings):
     """Resolver-side C09 monitor on curated strings (free ions, salts, surplus descriptors)."""
     from cgsmiles.resolve import MoleculeResolver
@@ -866,7 +878,7 @@ def resolve_strings(strings):
         except Exception:  # noqa
             stats["resolver_items_error"] = stats.get("resolver_items_error", 0) + 1
             continue
-        for detail in check_valence(fine, explicit_h=True, stats=stats):
+        for detail in check_valence(fine, explicit_h=text not in SQUASH_STRINGS, stats=stats):
             out.append({"oracle": "C09.valence", "detail": "resolver output of %s: %s" % (text, detail), "event": None})
         for known, formula in FORMULA_STRINGS:
             if known == text:
